@@ -573,6 +573,7 @@ def write_evidence(pid, P, tier, seed, records, bounded, wall, violations=0, not
                                    samples=b.get("samples", [])[:5], secs=round(b.get("secs", 0), 1),
                                    detail=b.get("detail")) for b in bounded],
         "deferred_to_thorough": deferred or [],
+        "not_admitted": P.get("not_admitted", []),
         "samples": [dict(obligation=r["obligation"], clause=r["clause"], status=r["status"]) for r in records[:6]],
         "explanation": P.get("explanation", ""),
         "evaluations": sum(int(b.get("evaluations") or 0) for b in bounded) + n,
